@@ -376,4 +376,32 @@ Section Loop.
         * destruct (Hdich b Hb'); lia.
   Qed.
 
+  Lemma apply_one_nodup_bound st dw :
+    NoDup (map t_id (live st)) -> (forall t, In t (live st) -> t_id t <= next_id st) ->
+    NoDup (map t_id (live (fst (apply_one st dw))))
+    /\ (forall t, In t (live (fst (apply_one st dw))) -> t_id t <= next_id (fst (apply_one st dw))).
+  Proof.
+    intros Hnd Hb. destruct dw as [d w]. rewrite apply_one_fst.
+    destruct w as [dest|]; cbn [live next_id set_live set_next_id set_submitted]; split.
+    - rewrite map_id_upd_track by reflexivity. exact Hnd.
+    - intros x Hx. destruct (In_upd_track_cases _ _ _ _ Hx) as [[Hx1 _]|[x0 [Hx0 [_ E]]]].
+      + apply Hb; exact Hx1.
+      + subst x. cbn [absorb t_id]. apply Hb; exact Hx0.
+    - rewrite map_app. cbn [map fresh_track t_id].
+      apply (Permutation_NoDup (Permutation_cons_append _ _)). constructor; [|exact Hnd].
+      intro H. apply in_map_iff in H. destruct H as [x [Hx Hxin]]. specialize (Hb x Hxin). lia.
+    - intros x Hx. apply in_app_or in Hx. destruct Hx as [Hx|[Hx|[]]].
+      + specialize (Hb x Hx). lia.
+      + subst x. cbn [fresh_track t_id]. lia.
+  Qed.
+
+  Lemma apply_all_nodup_bound dws : forall st,
+    NoDup (map t_id (live st)) -> (forall t, In t (live st) -> t_id t <= next_id st) ->
+    NoDup (map t_id (live (fst (apply_all st dws))))
+    /\ (forall t, In t (live (fst (apply_all st dws))) -> t_id t <= next_id (fst (apply_all st dws))).
+  Proof.
+    induction dws as [|dw rest IH]; intros st Hnd Hb; [split; assumption|].
+    rewrite apply_all_cons. cbn [fst]. destruct (apply_one_nodup_bound st dw Hnd Hb) as [H1 H2]. apply IH; assumption.
+  Qed.
+
 End Loop.
